@@ -288,6 +288,8 @@ class DockerExecutor(Executor):
         self._is_running = False
         self._pending_jobs: dict[str, "Job"] = OrderedDict()
         self._thread: Optional[threading.Thread] = None
+        # Guards the decision to start a monitor thread against the monitor's decision to exit.
+        self._monitor_lock = threading.Lock()
 
     def set_scheduler(self, scheduler: "Scheduler") -> None:
         super().set_scheduler(scheduler)
@@ -334,10 +336,11 @@ class DockerExecutor(Executor):
         """
         os.makedirs(self._scratch_prefix, exist_ok=True)
 
-        if not self._is_running:
-            self._is_running = True
-            self._thread = threading.Thread(target=self._monitor, daemon=False)
-            self._thread.start()
+        with self._monitor_lock:
+            if not self._is_running:
+                self._is_running = True
+                self._thread = threading.Thread(target=self._monitor, daemon=False)
+                self._thread.start()
 
     def stop(self) -> None:
         """
@@ -360,7 +363,14 @@ class DockerExecutor(Executor):
         assert self._scheduler
 
         try:
-            while self._is_running and self._pending_jobs:
+            while True:
+                # Decide to exit under the lock: a job submitted from now on will find the
+                # monitor not running and start a new one, instead of being left behind.
+                with self._monitor_lock:
+                    if not (self._is_running and self._pending_jobs):
+                        self._is_running = False
+                        break
+
                 # Copy pending_jobs since it can change due to new submissions.
                 jobs = iter_job_status(self._scratch_prefix, dict(self._pending_jobs))
                 for job in jobs:
@@ -372,9 +382,9 @@ class DockerExecutor(Executor):
             # need to catch all exceptions so we can properly report them to
             # the scheduler.
             self._scheduler.reject_job(None, error)
+            self._is_running = False
 
         self.log("Shutting down executor...", level=logging.DEBUG)
-        self.stop()
 
     def _process_job_status(self, job: dict) -> None:
         """
